@@ -65,6 +65,8 @@ var situations = []string{
 	"link-of-foreign-leaf", "rename-into-foreign-directory-implementation",
 	"fuse-forget-partial", "fuse-forget-complete-then-lookup", "symlink-target-read-back",
 	"listing-page-ended-at-dot-entry", "fuse-setattr-on-directory",
+	"lazy-fetch-failed", "lazy-fetch-succeeded-after-failure",
+	"fuse:lazy-fetch-succeeded-after-failure", "nfs40:lazy-fetch-succeeded-after-failure", "nfs41:lazy-fetch-succeeded-after-failure",
 }
 
 func runDirectCase(r *ev.Run, cfgIdx int, base vfsh.Config, i int) {
